@@ -225,6 +225,10 @@ func (app *App) checkHAReplicasRunning(local *mysql.Node) (replicasRunning bool,
 }
 
 func (app *App) stateFirstRun() appState {
+	if app.optSyncer == nil || app.optController == nil {
+		// needed by every later state, including the one entered from maintenance without DCS connection
+		app.initializeOptimizationModule()
+	}
 	if !app.dcs.WaitConnected(app.config.DcsWaitTimeout) {
 		if app.doesMaintenanceFileExist() {
 			return stateMaintenance
